@@ -6,7 +6,6 @@ package c20
 import (
 	"fmt"
 	"math/rand"
-	"os"
 	"sort"
 	"strings"
 	"testing"
@@ -373,5 +372,5 @@ func TestCheck(t *testing.T) {
 		runSeq(r, "raw-first-frame", []packet.Generic{&packet.Pingreq{}}, i%2 == 0, raws[i])
 	})
 	r.Count("raw_first_frames", int64(len(raws)))
-	os.Exit(r.Finish(100))
+	h.Exit(r.Finish(100))
 }
